@@ -270,7 +270,15 @@ ActC07 == [][\A c \in Clients : (R.op = "Deliver" /\ R.c = c /\ R.e \in DOMAIN e
                      \* a record overwritten by a welcome (listed finding) is brought back in line with the MLS group by the re-sync
                      \* that a re-delivered, already applied commit performs
                      \/ /\ "WelcomeOverwritesActiveGroup" \in Dev /\ <<c, ev[R.e].g>> \in hist.wreset
-                        /\ PrintT(<<"KNOWN-FINDING", "C07", "WelcomeOverwritesActiveGroup", c, R.e>>)]_tvars
+                        /\ PrintT(<<"KNOWN-FINDING", "C07", "WelcomeOverwritesActiveGroup", c, R.e>>)
+                     \* finding TamperedOwnEchoStampsSnapshot: c applied its own commit R.e through a TAMPERED copy of it (which made
+                     \* it merge the pending commit and stamped the rollback snapshot with the copy's wrapper timestamp / id); the
+                     \* genuine echo then looks "better": rollback and re-merge, which drops whatever c has pending since
+                     \/ /\ "TamperedOwnEchoStampsSnapshot" \in Dev
+                        /\ ev[R.e].kind = "commit" /\ ev[R.e].author = c
+                        /\ \E j \in DOMAIN ev : ev[j].kind = "junk" /\ ev[j].base = R.e /\ <<c, j>> \in hist.tried
+                        /\ hist'.notifs # <<>>
+                        /\ PrintT(<<"KNOWN-FINDING", "C07", "TamperedOwnEchoStampsSnapshot", c, R.e>>)]_tvars
 InvC20 == C20_Bounded
 \* start-up leaves no snapshot older than the configured time-to-live (ages by the driver's own clock, not the store's stamps)
 ActC20 == [][(R.op = "Restart" /\ "ttl" \in DOMAIN R)
